@@ -478,6 +478,10 @@ pub fn check_c02(h: &Hist) -> POut {
                 out.violations.push(viol("C02", "R2-unwritten-value", o.ret_seq.unwrap(), "lookup returned a value nobody wrote", format!("{}({}) returned {:?}", o.op.name(), k, v)));
                 continue;
             };
+            if v != w.val {
+                out.violations.push(viol("C02", "R2-torn-value", o.ret_seq.unwrap(), "lookup returned a half-written value (an in-place update through get_mut was visible before its reference was released)", format!("{}({}) returned {:?}; the write with that id wrote {:?}", o.op.name(), k, v, w.val)));
+                continue;
+            }
             if !w.accepted || w.inv > o.ret_seq.unwrap() {
                 out.violations.push(viol("C02", "R2-value-of-refused-or-later-write", o.ret_seq.unwrap(), "lookup returned the value of a write that was refused or had not been invoked", format!("{}({}) returned {:?}; write inv={} ret={} accepted={}", o.op.name(), k, v, w.inv, w.ret, w.accepted)));
             }
